@@ -100,7 +100,12 @@ impl Operator for DistinctOperator {
                 return Ok(None);
             };
 
-            let mut builder = DataChunkBuilder::with_capacity(&self.output_schema, 2048);
+            // Room for every row of this input chunk: returning as soon as a smaller
+            // builder is full would drop the rest of the chunk
+            let mut builder = DataChunkBuilder::with_capacity(
+                &self.output_schema,
+                chunk.row_count().max(2048),
+            );
 
             for row in chunk.selected_indices() {
                 let key = match &self.distinct_columns {
